@@ -184,7 +184,9 @@ fn main() {
             let mut rng = Rng::keyed(ctx.seed, "C02s", 0, i as u64);
             let o = gen::GenOpts { cenc: i % 4 == 0, max_objects: 3, max_symbols: 40, sources: false, transfers_max: 2, realistic_every: 0, ..Default::default() };
             let (mut spec, objs) = gen::gen_session(&mut rng, &o);
-            spec.full_fdt = true; // every instance lists every object: predicate stays simple
+            // full FDT (every instance lists every object) or, for one session in three, ObjectsBeingTransferred mode
+            // (an object is listed by SOME instances only; the predicate looks for a decodable instance that lists it)
+            spec.full_fdt = i % 3 != 0;
             spec.fdt_cenc = CencSpec::Null;
             let mut cr = CaseResult::default();
             let em = match util::guarded(|| emit(&spec, &objs, &EmitOpts::default())) {
@@ -235,16 +237,36 @@ fn main() {
                         }
                     }
                 }
-                // FDT packets: mostly kept; sometimes drop the first copies / some symbols
+                // FDT packets: mostly kept; sometimes drop the first copies / some symbols / whole instances
+                let dropped_instances: std::collections::HashSet<u32> = if round >= 4 {
+                    sh.fdts.iter().filter(|_| rng.chance(1, 3)).map(|f| f.id).collect()
+                } else {
+                    Default::default()
+                };
                 for (k, p) in sh.em.stream.iter().enumerate() {
                     if p.toi() == 0 {
                         let drop = match round {
                             4 => rng.chance(1, 4),
                             5 => rng.chance(1, 2),
                             _ => false,
-                        };
+                        } || p.dec.fdt.map(|f| dropped_instances.contains(&f.1)).unwrap_or(false);
                         if !drop {
                             keep.insert(k);
+                        }
+                    }
+                }
+                // objects with several transfers: sometimes every packet of the first transfer is lost
+                if round >= 2 {
+                    for (oi, ov) in sh.views.iter().enumerate() {
+                        if sh.em.objs[oi].max_transfer_count >= 2 && rng.chance(1, 3) {
+                            let tr = transfers_of(&sh.em.sub_events, ov.toi);
+                            if let Some((s, Some(e))) = tr.first().copied() {
+                                for k in s..e {
+                                    if sh.em.stream[k].toi() == ov.toi {
+                                        keep.remove(&k);
+                                    }
+                                }
+                            }
                         }
                     }
                 }
@@ -279,6 +301,67 @@ fn main() {
             }
             cr.sample = Some(json!({"session": sh.em.json(), "deliveries": n_runs, "decodable": n_dec}));
             limit(&mut cr.violations, 4);
+            cr
+        }));
+        // ---- ObjectsBeingTransferred mode, objects sent one after the other: object A (two transfers) loses its whole
+        //      first transfer and every FDT instance that lists it afterwards; when its second transfer arrives the newest
+        //      instance the receiver holds lists another object, an OLDER one lists A
+        let n_o = ctx.tier.pick(600usize, 30_000);
+        gens.push(Gen::new("older_instance_lists_object", n_o, move |ctx, i| {
+            let mut rng = Rng::keyed(ctx.seed, "C02o", 0, i as u64);
+            let mut cr = CaseResult::default();
+            let mut spec = SenderSpec::new(OtiSpec::new(Fec::NoCode, 4096, 8, 0));
+            spec.full_fdt = false;
+            spec.queues = vec![(0, 1)];
+            spec.interleave = rng.range(1, 3) as u8;
+            let nobj = rng.range(2, 4) as usize;
+            let mut objs = vec![];
+            for k in 0..nobj {
+                let fec = *rng.pick(&[Fec::NoCode, Fec::Rs28, Fec::RaptorQ, Fec::Rs28Us]);
+                let mut oti = OtiSpec::new(fec, 16, rng.range(2, 4) as u32, if fec == Fec::NoCode { 0 } else { 1 });
+                oti.al = 4;
+                oti.inband_fti = rng.chance(1, 2);
+                let len = rng.range(20, 150) as usize;
+                let mut o = ObjSpec::new(rng.bytes(len), &format!("file:///older/{}.bin", k));
+                o.oti = Some(oti);
+                o.max_transfer_count = if k == 0 { 2 } else { 1 };
+                objs.push(o);
+            }
+            let em = match util::guarded(|| emit(&spec, &objs, &EmitOpts::default())) {
+                Ok(Ok(em)) => em,
+                _ => return cr,
+            };
+            if em.tois.iter().any(|t| t.is_none()) || em.stream.len() > 600 {
+                return cr;
+            }
+            let sh = make_shape(format!("older{}", i), em);
+            let a = match sh.views.first() {
+                Some(v) => v,
+                None => return cr,
+            };
+            let tr = transfers_of(&sh.em.sub_events, a.toi);
+            let (s1, e1) = match tr.first().copied() {
+                Some((s, Some(e))) => (s, e),
+                _ => return cr,
+            };
+            let needle = format!("TOI=\"{}\"", a.toi);
+            // instances first emitted after the first transfer of A that list A
+            let later_listing: std::collections::HashSet<u32> = sh.fdts.iter().filter(|f| f.idx.first().map(|k| *k >= e1).unwrap_or(false) && f.xml.as_ref().map(|x| x.contains(&needle)).unwrap_or(true)).map(|f| f.id).collect();
+            let delivered: Vec<usize> = (0..sh.em.stream.len()).filter(|k| {
+                let p = &sh.em.stream[*k];
+                !(p.toi() == a.toi && *k >= s1 && *k < e1) && !(p.toi() == 0 && p.dec.fdt.map(|f| later_listing.contains(&f.1)).unwrap_or(false))
+            }).collect();
+            let (d, _) = deliver(&sh, &delivered, "older_instance", &mut cr.violations);
+            cr.count("deliveries", 1);
+            cr.count("decodable_deliveries", d);
+            cr.count("instances_withheld", later_listing.len() as u64);
+            if d > 0 && !later_listing.is_empty() {
+                cr.shape = Some(util::fnv(&format!("older|{}|{}|{}", nobj, sh.em.oti_of(0).fec.name(), sh.em.oti_of(0).inband_fti)));
+            }
+            if i % 97 == 0 {
+                cr.sample = Some(json!({"session": sh.em.json(), "instances_withheld": later_listing.len(), "decodable_objects": d}));
+            }
+            limit(&mut cr.violations, 3);
             cr
         }));
         // ---- the first FDT copy is lost: a carousel copy arrives in the middle of the object (paced sender, one packet
